@@ -59,6 +59,10 @@ def cases(draw, tier):
         if draw(st.integers(0, 3)) == 0:
             text += '// café 日本\n'
         if draw(st.integers(0, 3)) == 0:
+            # a serializable instantiation whose C++ name contains a comma (exported through
+            # a typedef alias)
+            text += 'template<ZT = {double}, ZU = {int, bool}> class ZzPair { void serialize() const; };\n'
+        if draw(st.integers(0, 3)) == 0:
             # non-ASCII text that reaches the generated files
             text += 'void zuerich(string where = "Zürich 日本");\n'
         paths = PC.ns_paths(m)
